@@ -2,7 +2,7 @@
 # scratch_seedtest.sh <seed-id> <worktree> <demo-rel-path> <check ids...>
 # Like seedtest.sh, but applies the change to a scratch clone of /repo and runs the checks from a scratch copy of
 # /verif (harness replace -> the clone), so that /repo stays untouched while long runs are using it.
-S=/tmp/seedt
+S=${SEEDT:-/tmp/seedt}
 mkdir -p $S
 if [ ! -d $S/repo/.git ]; then git clone -q /repo $S/repo; fi
 git -C $S/repo fetch -q /repo HEAD && git -C $S/repo checkout -q --detach FETCH_HEAD && git -C $S/repo checkout -q -- .
